@@ -1,6 +1,9 @@
 import RpmVerif.Model.ShaWriter
 import RpmVerif.Lemmas.Io
 import RpmVerif.Props.C06
+import RpmVerif.Lemmas.ShaSink
+import RpmVerif.Model.WithFileContent
+import RpmVerif.Lemmas.Sign
 /-!
 # C08 — every digest the builder records is the true digest
 
@@ -143,11 +146,369 @@ theorem build_digests (c : Cfg) (now : Nat) (sha256hex : Bytes → Bytes) (archi
   · exact payload_digest (mkCtx c now (sha256hex payload) (sha256hex archive))
   · exact archive_digest (mkCtx c now (sha256hex payload) (sha256hex archive))
 
+/-! ### the stack `prepare_data` builds: cpio `Writer` → `Sha256Writer` → compressor (Model/ShaSink.lean)
+
+`alt_digest` above is about `Sha256Writer` under an abstract list of buffers.  Here the buffers are the ones the cpio
+writer really produces for the builder's files, written through the hashing writer into a compressor of ANY behaviour
+(response script, failing `flush`); C07 `builder_archive_writer` (the same loop over a bare sink) is reached through the
+projection lemmas of Lemmas/ShaSink.lean. -/
+section stacked
+open RpmVerif.ShaSink RpmVerif.PWriter RpmVerif.Cpio
+
+/-- the archive `prepare_data` writes for the files (in `BTreeMap` order): stripped entries in large-file mode -/
+def archiveOfFiles (large : Bool) (uid gid : Nat) (files : List FileIn) : Bytes :=
+  if large then builderArchiveLarge files else builderArchive uid gid files
+
+/-- **one `Sha256Writer::write`**: outcome and compressor state are those of the bare `inner.write(buf)`; after
+`Ok(n)` the hasher has been fed exactly `buf[..n]` more — the bytes by which the compressor's input grew —, after an
+error nothing; the slice `&buf[..n]` adds no panic -/
+theorem sha_writer_write (h : HSink) (buf : Bytes) :
+    (h.write buf).1 = (h.inner.write buf).1 ∧ (h.write buf).2.inner = (h.inner.write buf).2
+    ∧ (∀ n, (h.write buf).1 = .ok n →
+        (h.write buf).2.hashed = h.hashed ++ buf.take n ∧ (h.write buf).2.inner.out = h.inner.out ++ buf.take n)
+    ∧ (∀ c, (h.write buf).1 = .err c → (h.write buf).2.hashed = h.hashed ∧ (h.write buf).2.inner.out = h.inner.out) := by
+  obtain ⟨a1, a2, _, a4, a5⟩ := HSink.write_proj [] h buf
+  obtain ⟨_, _, _, _, s5⟩ := Sink.write_spec h.inner buf
+  refine ⟨a1, a2, fun n hn => ⟨a4 n hn, ?_⟩, fun c hc => ⟨a5 c hc, ?_⟩⟩
+  · rw [a2]; rw [a1] at hn
+    rcases s5 with ⟨m, e1, _, e3⟩ | ⟨e1, _⟩
+    · rw [e1] at hn; cases hn; exact e3
+    · rcases e1 with e1 | e1 <;> rw [e1] at hn <;> cases hn
+  · rw [a2]; rw [a1] at hc
+    rcases s5 with ⟨m, e1, _, _⟩ | ⟨_, e3⟩
+    · rw [e1] at hc; cases hc
+    · exact e3
+
+/-- **what is hashed for PAYLOADDIGESTALT** — the two loops of `prepare_data` plus the trailer, through
+`Sha256Writer::new(&mut compressor)`, for EVERY compressor behaviour `comp` (in standard mode every content fits a `u32`,
+which the large-file switch guarantees: C07 `standard_mode_sizes_fit_u32`):
+* the outcome is `Ok` or an I/O error of the compressor — no panic, no `UnexpectedEof` of the cpio writer;
+* when `Ok`, the hasher was fed exactly `archiveOfFiles …` — the cpio archive of the files — and the compressor accepted
+  exactly the same bytes, in this order, after what it held before;
+* a compressor that accepts everything and whose `flush` works gives `Ok`. -/
+theorem prepare_archive_hashed (large : Bool) (uid gid : Nat) (files : List FileIn) (comp : Sink)
+    (hfit : large = false → ∀ f ∈ files, f.content.length ≤ 4294967295) :
+    ((prepareArchive large uid gid files ⟨comp, []⟩).1 = .ok ()
+      ∨ (prepareArchive large uid gid files ⟨comp, []⟩).1 = .err "io"
+      ∨ (prepareArchive large uid gid files ⟨comp, []⟩).1 = .err "write-zero")
+    ∧ ((prepareArchive large uid gid files ⟨comp, []⟩).1 = .ok () →
+        (prepareArchive large uid gid files ⟨comp, []⟩).2.hashed = archiveOfFiles large uid gid files
+        ∧ (prepareArchive large uid gid files ⟨comp, []⟩).2.inner.out = comp.out ++ archiveOfFiles large uid gid files)
+    ∧ (comp.script = [] → comp.flushFails = false → (prepareArchive large uid gid files ⟨comp, []⟩).1 = .ok ()) := by
+  have hi : ShaSink.Inv comp.out (⟨comp, []⟩ : HSink) := by simp [ShaSink.Inv]
+  have key : ∀ (r : Out Unit × HSink), ShaSink.Inv comp.out r.2 →
+      ((r.1 = .ok () ∧ r.2.inner.out = comp.out ++ archiveOfFiles large uid gid files) ∨ (r.1 = .err "io" ∨ r.1 = .err "write-zero")) →
+      (r.1 = .ok () ∨ r.1 = .err "io" ∨ r.1 = .err "write-zero")
+      ∧ (r.1 = .ok () → r.2.hashed = archiveOfFiles large uid gid files ∧ r.2.inner.out = comp.out ++ archiveOfFiles large uid gid files) := by
+    intro r hinv hr
+    rcases hr with ⟨e1, e2⟩ | e1
+    · refine ⟨Or.inl e1, fun _ => ⟨?_, e2⟩⟩
+      unfold ShaSink.Inv at hinv
+      rw [e2] at hinv
+      exact (List.append_cancel_left hinv).symm
+    · refine ⟨Or.inr e1, fun h => ?_⟩
+      rcases e1 with e1 | e1 <;> rw [e1] at h <;> cases h
+  cases large with
+  | true =>
+    obtain ⟨a1, _, _, a4, a5⟩ := largeEntriesH_spec comp.out (files.map (·.content)) 0 ⟨comp, []⟩ hi
+    have := key (prepareArchive true uid gid files ⟨comp, []⟩) a1 a5
+    exact ⟨this.1, this.2, a4⟩
+  | false =>
+    have hes : ∀ x ∈ builderEntriesFrom uid gid 1 files, x.2.length < 4294967296 := by
+      intro x hx
+      obtain ⟨f, hf, e⟩ := builderEntriesFrom_content uid gid files 1 x hx
+      have := hfit rfl f hf
+      rw [e]; omega
+    obtain ⟨a1, _, _, a4, a5⟩ := entriesH_spec comp.out _ hes ⟨comp, []⟩ hi
+    have := key (prepareArchive false uid gid files ⟨comp, []⟩) a1 a5
+    exact ⟨this.1, this.2, a4⟩
+
+/-- **the two payload digests** — when `prepare_data`'s archive part ends `Ok(d)`:
+* `d.archiveShaHex` (PAYLOADDIGESTALT) is the digest of the cpio archive of the files — the compressor's INPUT;
+* `d.payload` is what `finish_compression` returned for the compressor after it had accepted exactly that archive, and
+  nothing else, since it was made;
+* `d.payloadShaHex` (PAYLOADDIGEST) is the digest of that payload — the compressor's OUTPUT.
+For every hash function, every compressor behaviour and every `finish_compression`. -/
+theorem prepare_digests_spec (fin : Sink → Out Bytes) (sha256hex : Bytes → Bytes) (large : Bool) (uid gid : Nat)
+    (files : List FileIn) (comp : Sink) (hfit : large = false → ∀ f ∈ files, f.content.length ≤ 4294967295)
+    (d : Prepared) (hd : prepareDigests fin sha256hex large uid gid files comp = .ok d) :
+    d.archiveShaHex = sha256hex (archiveOfFiles large uid gid files)
+    ∧ d.payloadShaHex = sha256hex d.payload
+    ∧ ∃ comp', comp'.out = comp.out ++ archiveOfFiles large uid gid files ∧ fin comp' = .ok d.payload := by
+  obtain ⟨_, h2, _⟩ := prepare_archive_hashed large uid gid files comp hfit
+  unfold prepareDigests at hd
+  rcases hr : prepareArchive large uid gid files ⟨comp, []⟩ with ⟨o, h⟩
+  rw [hr] at hd h2
+  cases o with
+  | ok u =>
+    obtain ⟨e1, e2⟩ := h2 rfl
+    simp only at hd e1 e2
+    cases hf : fin h.inner with
+    | ok payload =>
+      rw [hf] at hd
+      simp only [Out.ok.injEq] at hd
+      subst hd
+      exact ⟨by rw [e1], rfl, h.inner, e2, hf⟩
+    | err c => rw [hf] at hd; cases hd
+    | panic p => rw [hf] at hd; cases hd
+  | err c => cases hd
+  | panic p => cases hd
+
+/-- the archive part of `prepare_data` panics only if `finish_compression` does -/
+theorem prepare_digests_total (fin : Sink → Out Bytes) (sha256hex : Bytes → Bytes) (large : Bool) (uid gid : Nat)
+    (files : List FileIn) (comp : Sink) (hfit : large = false → ∀ f ∈ files, f.content.length ≤ 4294967295)
+    (hfin : ∀ s p, fin s ≠ .panic p) (p : String) : prepareDigests fin sha256hex large uid gid files comp ≠ .panic p := by
+  obtain ⟨h1, _, _⟩ := prepare_archive_hashed large uid gid files comp hfit
+  unfold prepareDigests
+  rcases hr : prepareArchive large uid gid files ⟨comp, []⟩ with ⟨o, h⟩
+  rw [hr] at h1
+  simp only at h1
+  rcases h1 with h1 | h1 | h1 <;> subst h1 <;> simp only
+  · cases hf : fin h.inner with
+    | ok payload => simp
+    | err c => simp
+    | panic q => exact absurd hf (hfin _ _)
+  · simp
+  · simp
+
+/-- into a `Vec` (`CompressionType::None`: a sink that accepts everything, `finish_compression` = the bytes): the
+payload IS the archive, both digests are the digest of the cpio archive of the files -/
+theorem prepare_digests_none (sha256hex : Bytes → Bytes) (large : Bool) (uid gid : Nat) (files : List FileIn)
+    (hfit : large = false → ∀ f ∈ files, f.content.length ≤ 4294967295) :
+    prepareDigests (fun s => .ok s.out) sha256hex large uid gid files {}
+      = .ok ⟨sha256hex (archiveOfFiles large uid gid files), sha256hex (archiveOfFiles large uid gid files),
+             archiveOfFiles large uid gid files⟩ := by
+  obtain ⟨_, h2, h3⟩ := prepare_archive_hashed large uid gid files {} hfit
+  have hok := h3 rfl rfl
+  obtain ⟨e1, e2⟩ := h2 hok
+  unfold prepareDigests
+  rcases hr : prepareArchive large uid gid files ⟨{}, []⟩ with ⟨o, h⟩
+  rw [hr] at hok e1 e2
+  simp only at hok e1 e2
+  subst hok
+  simp only [e1, e2]
+  simp
+
+end stacked
+
+/-! ### file digests: the digest stored with a file is the digest of the content stored with it -/
+section fileDigests
+open RpmVerif.WithFile
+
+/-- forgetting the contents gives the builder state of Model/WithFile.lean (the one the header records are made of) -/
+theorem insertFileC_fst (p : FileC) (l : List FileC) : (insertFileC p l).map (·.1) = insertFileE p.1 (l.map (·.1)) := by
+  induction l with
+  | nil => rfl
+  | cons g r ih =>
+    simp only [insertFileC, insertFileE, List.map_cons]
+    by_cases h1 : p.1.cpioPath == g.1.cpioPath
+    · simp [h1]
+    · simp only [h1, Bool.false_eq_true, if_false]
+      by_cases h2 : p.1.cpioPath < g.1.cpioPath
+      · simp [h2]
+      · simp [h2, ih]
+
+theorem buildFilesC_fst (sha256hex : Bytes → Bytes) (valid : Bytes → Bool) (calls : List Call) (s : List FileC) (d : List Bytes) :
+    (buildFilesC sha256hex valid calls s).map (fun l => l.map (·.1))
+      = (buildState sha256hex valid calls ⟨s.map (·.1), d⟩).map (·.files) := by
+  induction calls generalizing s d with
+  | nil => rfl
+  | cons c r ih =>
+    simp only [buildFilesC, buildState, runCallC, runCall, withFileC]
+    cases applySetters valid c.setters (FileOpts.new c.dest) with
+    | ok o =>
+      simp only
+      cases hw : withFile sha256hex c.src o with
+      | ok e =>
+        simp only
+        rw [ih, BState.add, insertFileC_fst]
+      | err x => rfl
+      | panic x => rfl
+    | err x => rfl
+    | panic x => rfl
+
+/-- every member of the map after an insertion was there before or is the inserted entry (keep-first: never a mixture) -/
+theorem mem_insertFileC {p q : FileC} {l : List FileC} (h : q ∈ insertFileC p l) : q = p ∨ q ∈ l := by
+  induction l with
+  | nil => simp only [insertFileC, List.mem_singleton] at h; exact Or.inl h
+  | cons g r ih =>
+    simp only [insertFileC] at h
+    split at h
+    · exact Or.inr h
+    · split at h
+      · rcases List.mem_cons.mp h with h | h
+        · exact Or.inl h
+        · exact Or.inr h
+      · rcases List.mem_cons.mp h with h | h
+        · exact Or.inr (h ▸ List.mem_cons_self ..)
+        · rcases ih h with h | h
+          · exact Or.inl h
+          · exact Or.inr (List.mem_cons_of_mem _ h)
+
+/-- `or_insert`, not `insert`: an entry that is in the map stays in it, with its content, whatever is added later —
+in particular when the same destination is handed to `with_file` again -/
+theorem insertFileC_keeps_entries (p g : FileC) (l : List FileC) (hg : g ∈ l) : g ∈ insertFileC p l := by
+  induction l with
+  | nil => cases hg
+  | cons a r ih =>
+    simp only [insertFileC]
+    split
+    · exact hg
+    · split
+      · exact List.mem_cons_of_mem _ hg
+      · rcases List.mem_cons.mp hg with h | h
+        · exact h ▸ List.mem_cons_self ..
+        · exact List.mem_cons_of_mem _ (ih h)
+
+/-- … and a second entry for a path whose entry is at the front of the walk is dropped (the first one wins) -/
+theorem insertFileC_same_key_head (p g : FileC) (r : List FileC) (hk : p.1.cpioPath = g.1.cpioPath) :
+    insertFileC p (g :: r) = g :: r := by
+  simp [insertFileC, hk]
+
+/-- **file_digest_is_content_digest** — after ANY sequence of `with_file` calls (`FileOptions` setters of any kind,
+sources of any kind, the same destination any number of times), every entry of the builder's file map carries
+* as `sha_checksum` the digest of the content stored in the same entry — the bytes `prepare_data` will archive under this
+  entry's cpio path —, and
+* as `size` the length of that content.
+For every hash function. -/
+theorem file_digest_is_content_digest (sha256hex : Bytes → Bytes) (valid : Bytes → Bool) (calls : List Call)
+    (s fes : List FileC) (hs : ∀ p ∈ s, p.1.shaHex = sha256hex p.2 ∧ p.1.size = p.2.length)
+    (h : buildFilesC sha256hex valid calls s = .ok fes) :
+    ∀ p ∈ fes, p.1.shaHex = sha256hex p.2 ∧ p.1.size = p.2.length := by
+  induction calls generalizing s with
+  | nil => simp only [buildFilesC, Out.ok.injEq] at h; subst h; exact hs
+  | cons c r ih =>
+    simp only [buildFilesC, runCallC, withFileC] at h
+    cases ha : applySetters valid c.setters (FileOpts.new c.dest) with
+    | ok o =>
+      rw [ha] at h
+      simp only at h
+      cases hw : withFile sha256hex c.src o with
+      | ok e =>
+        rw [hw] at h
+        simp only at h
+        refine ih _ (fun p hp => ?_) h
+        rcases mem_insertFileC hp with rfl | hp
+        · -- the new entry: `add_data` hashed the content it stores
+          cases hsrc : c.src with
+          | openFails => rw [hsrc] at hw; cases hw
+          | readFails => rw [hsrc] at hw; cases hw
+          | readable f =>
+            rw [hsrc] at hw
+            simp only [withFile] at hw
+            cases ht : Timestamp.fromSystemTime f.mtime with
+            | ok t =>
+              rw [ht] at hw
+              simp only [addDataEntry] at hw
+              cases had : AddData.addData (inheritMode f.stMode o).destination with
+              | ok r3 =>
+                rw [had] at hw
+                obtain ⟨cp, dr, bs⟩ := r3
+                simp only [Out.ok.injEq] at hw
+                subst hw
+                exact ⟨rfl, rfl⟩
+              | err x => rw [had] at hw; cases hw
+              | panic x => rw [had] at hw; cases hw
+            | underflow => rw [ht] at hw; cases hw
+            | overflow => rw [ht] at hw; cases hw
+            | panic x => rw [ht] at hw; cases hw
+        · exact hs p hp
+      | err x => rw [hw] at h; cases h
+      | panic x => rw [hw] at h; cases h
+    | err x => rw [ha] at h; cases h
+    | panic x => rw [ha] at h; cases h
+
+/-- … hence RPMTAG_FILEDIGESTS of the header built from these entries lists, file by file, the digest of the content
+archived for that file (`fes.map (·.2)` are the contents `prepare_data` writes, `archiveOfFiles` over
+`fes.map fun p => ⟨p.1.cpioPath, p.1.mode, p.2⟩`) and RPMTAG_FILESIZES / LONGFILESIZES its length -/
+theorem file_digests_of_contents (x : Ctx) (sha256hex : Bytes → Bytes) (fes : List FileC) (hfiles : x.c.files = fes.map (·.1))
+    (hne : x.c.files.isEmpty = false) (hinv : ∀ p ∈ fes, p.1.shaHex = sha256hex p.2 ∧ p.1.size = p.2.length) :
+    getStringArray (C06.hdrOf x) IndexTag.RPMTAG_FILEDIGESTS = .ok (fes.map fun p => sha256hex p.2)
+    ∧ x.c.files.map (·.size) = fes.map (·.2.length) := by
+  refine ⟨?_, ?_⟩
+  · rw [(file_digests x hne).1, hfiles, List.map_map]
+    exact congrArg Out.ok (List.map_congr_left fun p hp => (hinv p hp).1)
+  · rw [hfiles, List.map_map]
+    exact List.map_congr_left fun p hp => (hinv p hp).2
+
+end fileDigests
+
+/-! ### the header digest after `sign` / `clear_signatures`, for ANY package -/
+section signClear
+open RpmVerif.Sign
+
+/-- **clear_header_digest_fresh** — `clear_signatures()` on ANY package value (no well-formedness, no digest of the
+start package assumed): RPMSIGTAG_SHA256 of the result is the digest of the result's serialised main header -/
+theorem clear_header_digest_fresh (sha256 : Bytes → Bytes) (p : Package) :
+    getString (clearOp sha256 p).md.signature SigTag.RPMSIGTAG_SHA256
+      = .ok (shaHex sha256 (writeHeader (clearOp sha256 p).md.header)) :=
+  sig_header_sha256 [] _ (by simp)
+
+/-- **sign_header_digest_fresh** — `sign_with_timestamp(signer, t)` on ANY package value, any signer whose legacy tag is
+RPMSIGTAG_RSA or RPMSIGTAG_DSA (`pgp::Signer`: C10 `AlgOk`): the recorded header digest is the true one -/
+theorem sign_header_digest_fresh (S : SigScheme) (hl : S.LegacyOk) (sha256 : Bytes → Bytes) (k : S.Key) (t : Nat) (p : Package) :
+    getString (signOp S sha256 k t p).md.signature SigTag.RPMSIGTAG_SHA256
+      = .ok (shaHex sha256 (writeHeader (signOp S sha256 k t p).md.header)) := by
+  refine sig_header_sha256 _ _ (fun s hs => ?_)
+  simp only [List.mem_singleton] at hs
+  subst hs
+  rcases hl k with e | e <;> (simp only [e]; decide)
+
+end signClear
+
 /-! ### non-vacuity -/
 -- a sink that takes 1 byte, is interrupted, then takes the rest: hashed = accepted = everything
 example : writeAllH false [1, 2, 3] [.ok 1, .intr, .ok 5] = ([1, 2, 3], [1, 2, 3], .ok, []) := by decide
 -- a hard failure after two bytes: the hasher saw exactly those two bytes
 example : writeAllH false [1, 2, 3] [.ok 2, .fail] = ([1, 2], [1, 2], .err, []) := by decide
 example : (runH false [[1, 2], [3]] [.ok 1, .ok 1, .ok 1]).2.2.1 = .ok := by decide
+
+/-! #### the stacked writers, the file map with contents, sign / clear -/
+section nonvacuity2
+open RpmVerif.ShaSink RpmVerif.PWriter RpmVerif.Cpio RpmVerif.WithFile RpmVerif.Sign
+
+/-- two files, a compressor that takes 1 byte, is interrupted, takes 7, then 100 per call: `Ok`, and the hasher saw the archive -/
+def wFiles : List FileIn := [⟨[46, 47, 97], 33188, [1, 2, 3]⟩, ⟨[46, 47, 98], 33261, []⟩]
+def wComp : Sink := { script := [.ok 1, .intr, .ok 7] ++ List.replicate 8 (.ok 100) }
+example : (prepareArchive false 0 0 wFiles ⟨wComp, []⟩).1 = .ok ()
+    ∧ (prepareArchive false 0 0 wFiles ⟨wComp, []⟩).2.hashed = builderArchive 0 0 wFiles
+    ∧ (prepareArchive false 0 0 wFiles ⟨wComp, []⟩).2.inner.out = builderArchive 0 0 wFiles := by decide +kernel
+/-- the large-file form through the same compressor -/
+example : (prepareArchive true 0 0 wFiles ⟨wComp, []⟩).1 = .ok ()
+    ∧ (prepareArchive true 0 0 wFiles ⟨wComp, []⟩).2.hashed = builderArchiveLarge wFiles := by decide +kernel
+/-- a compressor whose `flush` fails: an error (the large-file branch flushes after every file), not a panic -/
+example : (prepareArchive true 0 0 wFiles ⟨{ flushFails := true }, []⟩).1 = .err "io" := by decide +kernel
+/-- a hard failure in the middle: an error, and what was hashed is what the compressor took (a prefix of the archive) -/
+example : (prepareArchive false 0 0 wFiles ⟨{ script := [.ok 50, .fail] }, []⟩).1 = .err "io"
+    ∧ (prepareArchive false 0 0 wFiles ⟨{ script := [.ok 50, .fail] }, []⟩).2.hashed = (builderArchive 0 0 wFiles).take 50 := by
+  decide +kernel
+/-- a toy codec (prefix the gzip magic) and a toy hash (length and first byte) -/
+def wFin (s : Sink) : Out Bytes := .ok ([0x1f, 0x8b] ++ s.out)
+def wHash (b : Bytes) : Bytes := [b.length.toUInt8, b.headD 0]
+example : prepareDigests wFin wHash false 0 0 wFiles wComp
+    = .ok ⟨wHash (builderArchive 0 0 wFiles), wHash ([0x1f, 0x8b] ++ builderArchive 0 0 wFiles), [0x1f, 0x8b] ++ builderArchive 0 0 wFiles⟩ := by
+  decide +kernel
+example : wHash (builderArchive 0 0 wFiles) ≠ wHash ([0x1f, 0x8b] ++ builderArchive 0 0 wFiles) := by decide +kernel
+example : ∀ f ∈ wFiles, f.content.length ≤ 4294967295 := by decide
+
+/-- the same destination handed to `with_file` twice with different contents, and a second file: the map keeps the
+FIRST entry for `/a` — its digest and its content —, sorted by path -/
+def wSrc (c : Bytes) : Source := .readable ⟨c, 0o100644, ⟨1500000000, 0, by decide⟩⟩
+def wCalls : List Call := [⟨wSrc [7, 8], [47, 98], []⟩, ⟨wSrc [1, 2, 3], [47, 97], []⟩, ⟨wSrc [9], [47, 97], [.user [120]]⟩]
+example : (buildFilesC wHash (fun _ => true) wCalls []).map (fun l => l.map fun p => (p.1.cpioPath, p.1.shaHex, p.1.size, p.2))
+    = .ok [([46, 47, 97], [3, 1], 3, [1, 2, 3]), ([46, 47, 98], [2, 7], 2, [7, 8])] := by decide +kernel
+example : ∀ p ∈ ([] : List FileC), p.1.shaHex = wHash p.2 ∧ p.1.size = p.2.length := by simp
+
+/-- sign / clear on a package that is NOT well formed and whose recorded digest is stale (a main header with an entry
+but an empty store; RPMSIGTAG_SHA256 absent): the operations install the true digest -/
+def wBad : Package := ⟨⟨Bld.leadNew [120], ⟨0, 0, [], []⟩, ⟨1, 7, [⟨1000, .str [120], 5, 1⟩], []⟩⟩, [1, 2]⟩
+example : getString wBad.md.signature SigTag.RPMSIGTAG_SHA256 = .err "notfound" := by decide +kernel
+example : getString (clearOp wHash wBad).md.signature SigTag.RPMSIGTAG_SHA256
+    = .ok (shaHex wHash (writeHeader wBad.md.header)) := clear_header_digest_fresh wHash wBad
+example : getString (signOp (Sym.scheme fun k => [k]) wHash (3 : UInt8) 1600000000 wBad).md.signature SigTag.RPMSIGTAG_SHA256
+    = .ok (shaHex wHash (writeHeader wBad.md.header)) :=
+  sign_header_digest_fresh _ (Sym.legacyOk _) wHash (3 : UInt8) 1600000000 wBad
+
+end nonvacuity2
 
 end RpmVerif.C08
